@@ -16,6 +16,7 @@ decisions as in `sim/runtime.rs`, production = "release everything that arrived"
 Partial: the macro expansion itself is modelled by hand (its text is pinned by checks/C31.py).
 -/
 import HvHydro2.Model.Sliced
+import HvHydro2.Model.SimTie
 import Mathlib.Data.List.Basic
 import Mathlib.Data.Nat.Basic
 
@@ -289,6 +290,79 @@ theorem prevLast_closed_form (c : Option Int) (bs : List (List Int)) :
   | nil => rfl
   | cons b bs ih => simp only [runSliced, prevLastBody, List.length_cons, List.map_cons,
       List.take_succ_cons, ih]
+
+/-! ### judging simulator executions (harness `hv_hydro2_sim`, driver ops `sb ss sc sp s2`) -/
+
+theorem aux_runBatches_fst_snd {α : Type} (buf : List α) (p : List α × Nat) (rest : List (List α × Nat)) :
+    runBatches buf (p :: rest) =
+      ((batchTick buf p.1 p.2).1 :: (runBatches (batchTick buf p.1 p.2).2 rest).1,
+        (runBatches (batchTick buf p.1 p.2).2 rest).2) := by
+  obtain ⟨arr, n⟩ := p; rfl
+
+/-- replaying "nothing arrives, release `|b|`" for every observed batch reproduces the observation
+and empties the buffer exactly when the buffer is the concatenation of the observed batches -/
+theorem aux_replay_tail {α : Type} (bs : List (List α)) (buf : List α) :
+    runBatches buf (bs.map (fun b' => (([] : List α), b'.length))) = (bs, []) ↔ buf = bs.flatten := by
+  induction bs generalizing buf with
+  | nil => simp [runBatches]
+  | cons c cs ih =>
+    rw [List.map_cons, aux_runBatches_fst_snd]
+    simp only [batchTick, List.append_nil, List.flatten_cons, Prod.mk.injEq, List.cons.injEq]
+    constructor
+    · rintro ⟨⟨h1, h2⟩, h3⟩
+      have := (ih (buf.drop c.length)).1 (Prod.ext h2 h3)
+      rw [← List.take_append_drop c.length buf, h1, this]
+    · intro h
+      subst h
+      have e := (ih cs.flatten).2 rfl
+      simp only [List.take_left', List.drop_left', e, and_self]
+
+/-- The driver's verdict on a recorded simulator execution (`schedOf`: the release schedule read
+off the observation, replayed through the batch-hook model) IS the partition clause: the execution
+is accepted iff the observed batches, concatenated in order, are exactly the input. -/
+theorem simBatchesOk_iff_partition (xs : List Int) (bs : List (List Int)) :
+    simBatchesOk xs bs = true ↔ bs.flatten = xs := by
+  cases bs with
+  | nil =>
+    simp only [simBatchesOk, List.isEmpty_iff, List.flatten_nil]
+    exact ⟨fun h => h.symm, fun h => h.symm⟩
+  | cons b rest =>
+    simp only [simBatchesOk, schedOf, beq_iff_eq]
+    rw [aux_runBatches_fst_snd]
+    simp only [batchTick, List.nil_append, List.flatten_cons, Prod.mk.injEq, List.cons.injEq]
+    constructor
+    · rintro ⟨⟨h1, h2⟩, h3⟩
+      have := (aux_replay_tail rest (xs.drop b.length)).1 (Prod.ext h2 h3)
+      rw [← List.take_append_drop b.length xs, h1, this]
+    · intro h
+      subst h
+      have e := (aux_replay_tail rest rest.flatten).2 rfl
+      simp only [List.take_left', List.drop_left', e, and_self]
+
+/-- the snapshot verdict is exactly "never back, never from the future" -/
+theorem simSnapsOk_iff (total : Nat) (last : Option Nat) (cs : List Nat) :
+    simSnapsOk total last cs = true ↔
+      (∀ c ∈ cs, last.getD 0 ≤ c ∧ c ≤ total) ∧ cs.Pairwise (· ≤ ·) := by
+  induction cs generalizing last with
+  | nil => simp [simSnapsOk]
+  | cons c cs ih =>
+    simp only [simSnapsOk, Bool.and_eq_true, decide_eq_true_eq, ih, Option.getD_some,
+      List.mem_cons, forall_eq_or_imp, List.pairwise_cons]
+    constructor
+    · rintro ⟨⟨h1, h2⟩, h3, h4⟩
+      exact ⟨⟨⟨h1, h2⟩, fun d hd => ⟨le_trans h1 (h3 d hd).1, (h3 d hd).2⟩⟩, fun d hd => (h3 d hd).1, h4⟩
+    · rintro ⟨⟨⟨h1, h2⟩, h3⟩, h4, h5⟩
+      exact ⟨⟨h1, h2⟩, fun d hd => ⟨h4 d hd, (h3 d hd).2⟩, h5⟩
+
+/-- what the model's snapshot hook releases is accepted by the verdict (for every decision script):
+the released versions are pairwise non-decreasing -/
+theorem model_snapshots_accepted (script : List (Nat × SnapDec)) (total : Nat)
+    (hb : ∀ v ∈ releasedVersions script, v ≤ total) :
+    simSnapsOk total none (releasedVersions script) = true :=
+  (simSnapsOk_iff total none _).2 ⟨fun c hc => ⟨Nat.zero_le _, hb c hc⟩, snapshots_monotone script⟩
+
+example : simBatchesOk [1, 2, 3, 4] [[1, 2], [3], [4]] = true ∧ simBatchesOk [1, 2, 3] [[2], [1, 3]] = false := by
+  decide
 
 /-! ### non-vacuity -/
 example : runBatches [] [([1, 2, 3], 2), ([4], 0), ([], 5)] = ([[1, 2], [], [3, 4]], []) := by decide
